@@ -3,7 +3,9 @@
 #include <stddef.h>
 #include <stdint.h>
 #define MEMFS_NFILES 3
+#ifndef MEMFS_CAP
 #define MEMFS_CAP 96
+#endif
 #define MEMFS_NAME 12
 typedef struct { int exists; char name[MEMFS_NAME]; size_t len; uint8_t data[MEMFS_CAP]; } memfs_file_t;
 extern memfs_file_t memfs_files[MEMFS_NFILES];
